@@ -176,6 +176,19 @@ def run(rng, tier, res=None, want=("arcs", "pdf", "cluster")):
                                                                        f"(density bound {sg.density} / {sgb.density}): the result depends on the call history",
                                            "replay": dict(meta, k=k)})
                 res.hit("c07_history_checked")
+            # ---- C12, radius: on EVERY call, whatever the subgraph has been through (a re-used subgraph keeps a running density bound,
+            # which is mirrored and not claimed; its radii are claimed: "its radius is the largest of them")
+            FMAXV = FLOAT_MAX
+            rmsgs = []
+            for i in range(n):
+                near = sorted(float(M[idx[i]][idx[j]]) for j in range(n) if j != i)[:k]
+                near = [v for v in near if v != FMAXV]
+                wantr = max(near) if near else 0.0
+                if all(v == v for v in near) and float(sg.nodes[i].radius) != wantr:
+                    rmsgs.append(f"create_arcs call {ci + 1} on this subgraph (k={k}): node {i}: radius {sg.nodes[i].radius} != largest of its "
+                                 f"{len(near)} smallest distances {wantr}")
+            viol("C12", rmsgs, dict(meta, k=k, ks=ks[:ci + 1], warm=bool(warm)))
+            res.hit("c12_radius_checked_every_call")
             if ci == 0 and not warm:
                 # ---- C12 oracle on a fresh subgraph (a re-used one keeps a running density bound: mirrored, not claimed) ----
                 msgs = []
